@@ -59,11 +59,12 @@ type traceResult struct {
 }
 
 var (
-	reFull   = regexp.MustCompile(`^(\d+)\s+(\w+)\((.*)\)\s+=\s+(-?\d+|\?)(.*)$`)
-	reUnfin  = regexp.MustCompile(`^(\d+)\s+(\w+)\((.*) <unfinished \.\.\.>$`)
-	reResume = regexp.MustCompile(`^(\d+)\s+<\.\.\. (\w+) resumed>(.*)\)\s+=\s+(-?\d+|\?)(.*)$`)
-	reExited = regexp.MustCompile(`^(\d+)\s+\+\+\+ exited with (\d+) \+\+\+$`)
-	reStr    = regexp.MustCompile(`"((?:\\x[0-9a-f]{2})*)"`)
+	reFull    = regexp.MustCompile(`^(\d+)\s+(\w+)\((.*)\)\s+=\s+(-?\d+|\?)(.*)$`)
+	reUnfin   = regexp.MustCompile(`^(\d+)\s+(\w+)\((.*) <unfinished \.\.\.>$`)
+	reResume  = regexp.MustCompile(`^(\d+)\s+<\.\.\. (\w+) resumed>(.*)\)\s+=\s+(-?\d+|\?)(.*)$`)
+	reExited  = regexp.MustCompile(`^(\d+)\s+\+\+\+ exited with (\d+) \+\+\+$`)
+	reStr     = regexp.MustCompile(`"((?:\\x[0-9a-f]{2})*)"`)
+	reLeadInt = regexp.MustCompile(`^\s*\d+`)
 )
 
 func unhex(s string) []byte {
@@ -121,6 +122,7 @@ func parseTrace(path, outDir, workDir, markerPath string, gz bool) (*traceResult
 	rawPaths := map[string]bool{}
 	pendingTouch := ""
 	evIndex, evKind, msgOrd, evBytes, members := -1, "", 0, 0, 0
+	exited := false
 	// an injected failure: only a file operation of the router thread on an output file
 	// counts as the fault of the run; anything else is reported as missed
 	fault := func(tid int, what, d, n string, onFile bool, line string) {
@@ -377,7 +379,20 @@ func parseTrace(path, outDir, workDir, markerPath string, gz bool) (*traceResult
 				res.Ops = append(res.Ops, obsOp{Kind: "rename", Dir: d1, Name: n1, Dir2: d2, Name2: n2})
 			}
 		case "exit_group":
-			code, _ := strconv.Atoi(strings.TrimSpace(args))
+			// The process terminates once: only the first exit_group is the exit operation.
+			// (Seen twice in ~28000 traces under heavy load: the log of a fatally exiting run held
+			// two exit_group(1) records; the origin was not reproduced in ~3000 further runs.)
+			if exited {
+				res.Unknown = append(res.Unknown, "second exit_group("+strings.TrimSpace(args)+")")
+				return
+			}
+			m := reLeadInt.FindString(args) // "1", also inside "1 <unfinished ...>"
+			if m == "" {
+				res.Unknown = append(res.Unknown, "exit_group("+args+")")
+				return
+			}
+			exited = true
+			code, _ := strconv.Atoi(strings.TrimSpace(m))
 			res.ExitCode = code
 			if code == 1 {
 				res.Ops = append(res.Ops, obsOp{Kind: "exit", Code: 1})
